@@ -28,6 +28,7 @@ type E2Spec struct {
 	CVViews    int    `json:"cv_views"`    // change views only for views < CVViews (0 = all)
 	RespPeers  int    `json:"resp_peers"`  // responses/commits only from the first RespPeers peers (0 = all)
 	PoolFirst  bool   `json:"pool_first"`  // a requested transaction may enter the pool before OnTransaction is called
+	NotifyFirst bool  `json:"notify_first"` // OnTransaction is called before GetTx can serve the transaction
 	RecReq     bool   `json:"rec_req"`
 	Bundles    bool   `json:"bundles"`
 	NextHeight bool   `json:"next_height"` // payloads of height h+1 (cache)
@@ -249,6 +250,10 @@ func buildE2(w *World) *e2env {
 						rm.AddPayload(&Payload{typ: dbft.ChangeViewType, height: h, view: v - 1, idx: uint16(i), body: &changeView{newView: v, reason: dbft.CVTimeout, ts: envTS}})
 					}
 					fixed(fmt.Sprintf("h%d v%d recovery bundle: %d change views for view %d", h, v, len(peers), v), mk(dbft.RecoveryMessageType, sender, rm))
+				}
+				if int(v) == views-1 {
+					// a (Byzantine or far-ahead) peer's recovery message for a view above every view of the alphabet
+					fixed(fmt.Sprintf("h%d v%d recovery bundle: empty, from view %d", h, v, v+1), mk(dbft.RecoveryMessageType, sender, &recMsg{}).withView(v+1))
 				}
 				if p := props['A']; p != nil {
 					rm := &recMsg{}
